@@ -25,6 +25,9 @@ type ReplayCase struct {
 
 func outDir() string {
 	d := filepath.Join(verifDir(), "out")
+	if so := scratchOut(); so != "" {
+		d = so
+	}
 	os.MkdirAll(filepath.Join(d, "replay"), 0o755)
 	return d
 }
